@@ -209,7 +209,7 @@ class Driver:
         if isinstance(sv, (SBool, SInt, SStr, SDate, STd)):
             return self.conc_term(model, model.eval(sv.t, model_completion=True))
         if isinstance(sv, SDec):
-            return {'dec': str(model.eval(sv.t, model_completion=True))}
+            return self.conc_dec(model, model.eval(sv.t, model_completion=True))
         if isinstance(sv, SDyn):
             return self.conc_term(model, model.eval(sv.t, model_completion=True))
         if isinstance(sv, SCallee):
@@ -224,6 +224,25 @@ class Driver:
             return {'obj': path.heap.get(sv.oid, {}).get('__class__', '?') if not sv.old else 'old'}
         return repr(sv)
 
+    def conc_dec(self, model, t):
+        """an element of the uninterpreted Decimal sort -> a number consistent with int2dec in the model"""
+        out = {'dec': str(t)}
+        try:
+            n = model.eval(dec2int(t), model_completion=True)
+            back = model.eval(int2dec(n), model_completion=True)
+            if z3.is_int_value(n) and back.eq(t):
+                out['num'] = str(n.as_long())
+            else:
+                out['num'] = str((n.as_long() if z3.is_int_value(n) else 0)) + '.5'
+            for flag, fname in (('nan', 'dec_is_nan'), ('finite', 'dec_is_finite')):
+                f = uf(fname, Dec, B)
+                v = model.eval(f(t), model_completion=False)
+                if z3.is_true(v) or z3.is_false(v):
+                    out[flag] = z3.is_true(v)
+        except Exception:
+            pass
+        return out
+
     def conc_term(self, model, t):
         if z3.is_int_value(t): return t.as_long()
         if z3.is_true(t): return True
@@ -235,7 +254,7 @@ class Driver:
             if nm == 'VBool': return z3.is_true(t.arg(0))
             if nm == 'VInt': return t.arg(0).as_long() if z3.is_int_value(t.arg(0)) else str(t.arg(0))
             if nm == 'VStr': return t.arg(0).as_string() if z3.is_string_value(t.arg(0)) else str(t.arg(0))
-            if nm == 'VDec': return {'dec': str(t.arg(0))}
+            if nm == 'VDec': return self.conc_dec(model, t.arg(0))
             if nm == 'VDate': return {'date_ordinal': t.arg(0).as_long() if z3.is_int_value(t.arg(0)) else str(t.arg(0))}
             if nm == 'VObj': return {'obj': t.arg(0).as_long() if z3.is_int_value(t.arg(0)) else str(t.arg(0))}
             if nm == 'VSeq':
@@ -270,6 +289,8 @@ class Driver:
         c = self.contract
         res = Result(c.key)
         t0 = time.time()
+        if c.kind == 'lemma':
+            return self.run_lemma(res, t0)
         try:
             mod, fnode, chain = modinfo.resolve(c.target)
         except modinfo.TargetMissing as e:
@@ -297,6 +318,35 @@ class Driver:
         res.solver_time = self.solver_time
         res.inlined = sorted(self.inlined)
         res.used_contracts = sorted(self.used_contracts)
+        res.used_builtins = sorted(self.used_builtins)
+        res.wall = time.time() - t0
+        return res
+
+    def run_lemma(self, res, t0):
+        """a lemma over specification functions: params are universally quantified, requires => each ensures"""
+        c = self.contract
+        self.mod = _SpecMod.get(c.ensures_list()[0][1])
+        pnames = list(c.params)
+        alts = [c.params[p].cases() for p in pnames]
+        res.target = {'qual': c.target, 'file': getattr(self.mod, 'path', '?'), 'lines': [0, 0], 'sha1': 'lemma'}
+        for combo in itertools.product(*alts):
+            res.cases += 1
+            res.paths += 1
+            p = Path(self, [(('case', res.cases), True)])
+            p.taken.append((('case', res.cases), True))
+            try:
+                env = {n: p.sym(sh, n) for n, sh in zip(pnames, combo)}
+                p.pre_env = dict(env)
+                if c.requires is not None:
+                    p.assume(p.truthy(p.eval_contract_fn(c.requires, env)))
+                for lab, e in c.ensures_list():
+                    p.prove(p.truthy(p.eval_contract_fn(e, env)), 'lemma', lab, None)
+            except PathEnd:
+                pass
+            except Unsupported as e:
+                res.unsupported.append({'why': str(e), 'line': None, 'path': p.path_id()})
+        res.obligations = self.obligations
+        res.solver_time = self.solver_time
         res.used_builtins = sorted(self.used_builtins)
         res.wall = time.time() - t0
         return res
